@@ -624,3 +624,147 @@ for _n in tier((2, 3), (2, 3, 4)):
 for _n in (2, 3):
     OBLIGATIONS.append(Ob('stamps_n%d' % _n, make_stamps(_n), ['0 <= a < 5', '0 <= b < 5', '0 <= c < 5', '0 <= d < 5'], timeout=tier(200, 900),
                           data='ranks (symbolic) of date-like values, optional None item', selectors='date-like non-numeric values (support + with numbers, no *)'))
+
+
+# ---------------------------------------------------------------- wave 3: column names and row kinds
+from crosshair.tracers import NoTracing      # noqa: E402
+
+COLS = ['x', 'n', 'index', 'item_', 'length', 'number', 'var', 'count', 'key', 'end', 'X1', 'letter', 'even', 'value', 'data', 'first', 'total', 'size']
+STATS = ['count', 'total', 'mean', 'variance-n', 'variance', 'standard-deviation', 'standard-deviation-n', 'min', 'max', 'median']
+VALS3 = [(3, 10, 5), (1, 1, 1), (2, -7, 4)]
+
+
+def _src_two(c1, c2, mapping=True):
+    reads = ', '.join("_['%s-%s']" % (s, c) for c in (c1, c2, c1) for s in STATS)
+    return '<dtml-in seq%s><dtml-if sequence-end><dtml-call "rec(%s)"></dtml-if></dtml-in>' % (' mapping' if mapping else '', reads)
+
+
+T_COLS = {}
+
+
+def _tcol(c1, c2):
+    k = (c1, c2)
+    if k not in T_COLS:
+        T_COLS[k] = cooked(_src_two(c1, c2))
+    return T_COLS[k]
+
+
+def exact10(vals):
+    n = len(vals)
+    tot = sum(vals)
+    mean = tot / n
+    varn = sum((v - mean) ** 2 for v in vals) / n
+    var = sum((v - mean) ** 2 for v in vals) / (n - 1) if n > 1 else ''
+    srt = sorted(vals)
+    return [n, tot, mean, varn, var, math.sqrt(var) if n > 1 else '', math.sqrt(varn), min(vals), max(vals), (srt[(n - 1) // 2], srt[n // 2])]
+
+
+def same10(got, exp):
+    for g, e in zip(got, exp):
+        if isinstance(e, tuple):
+            if not (e[0] <= g <= e[1]):
+                return False
+        elif e == '':
+            if g != '':
+                return False
+        elif isinstance(g, str) or abs(g - e) > 1e-9 * max(1.0, abs(e)):
+            return False
+    return True
+
+
+T_NS = cooked('<dtml-in seq mapping><dtml-if sequence-end><dtml-call "rec(_)"></dtml-if></dtml-in>')
+
+
+def ob_column_names(c1: int, c2: int, rot: int) -> bool:
+    """the column may have any name - also one that looks like a sequence variable or a statistic (n, index, length, number, count,
+    total ...): statistics of two columns read one after the other (and the first one again), starting with ANY of the ten statistics,
+    all equal independently computed values"""
+    i1, i2, r = pick(c1, len(COLS)), pick(c2, len(COLS)), pick(rot, len(STATS))
+    with NoTracing():
+        if i1 == i2:
+            return True
+        n1, n2 = COLS[i1], COLS[i2]
+        a, b = VALS3[r % 3], VALS3[(r + 1) % 3]
+        seq = [{n1: a[i], n2: b[i]} for i in range(3)]
+        got = []
+
+        def rec(md):
+            for c in (n1, n2, n1):
+                row = {}
+                for q in range(len(STATS)):
+                    st = STATS[(q + r) % len(STATS)]
+                    row[st] = md['%s-%s' % (st, c)]
+                got.append([row[st] for st in STATS])
+            return ''
+        T_NS(seq=seq, rec=rec)
+        if len(got) != 3:
+            return False
+        return same10(got[0], exact10(a)) and same10(got[1], exact10(b)) and same10(got[2], exact10(a))
+
+
+OBLIGATIONS.append(Ob('column_names', ob_column_names, ['0 <= c1 < %d' % len(COLS), '0 <= c2 < %d' % len(COLS), '0 <= rot < %d' % len(STATS)], timeout=tier(280, 900), path_timeout=60,
+                      data='-', selectors='two columns named by a pair from %r, three rows from %r; all ten statistics of column 1, column 2, column 1 again, read in an order that starts at a selected statistic' % (COLS, VALS3),
+                      outside='column names containing a hyphen', stubs='render runs untraced once the names are fixed on the path'))
+
+
+class GetItemOnly:
+    """mapping-like row that implements __getitem__ only"""
+
+    def __init__(self, d):
+        self._d = d
+
+    def __getitem__(self, k):
+        return self._d[k]
+
+
+class Attrs:
+    def __init__(self, d):
+        self.__dict__.update(d)
+
+
+T_ROWS_MAP = cooked(_src_two('x', 'y'))
+T_ROWS_ATTR = cooked(_src_two('x', 'y', mapping=False))
+
+
+def ob_row_kinds(kind: int, v: int, miss: int) -> bool:
+    """rows of every kind dtml-in accepts: dicts, mapping-likes with __getitem__ only, objects, (key, row) pairs of either - and a row
+    that lacks the column (ignored) or holds None (ignored)"""
+    k, vi, ms = pick(kind, 6), pick(v, 3), pick(miss, 4)
+    with NoTracing():
+        a, b = VALS3[vi], VALS3[(vi + 1) % 3]
+        rows = [{'x': a[i], 'y': b[i]} for i in range(3)]
+        live_a = list(a)
+        if ms == 1:
+            del rows[1]['x']
+            del live_a[1]
+        elif ms == 2:
+            rows[2]['x'] = None
+            del live_a[2]
+        elif ms == 3:
+            rows[0]['x'] = None
+            del rows[1]['x']
+            live_a = [a[2]]
+        mapping = k in (0, 1, 4)
+        if k == 0:
+            seq = rows
+        elif k == 1:
+            seq = [GetItemOnly(r) for r in rows]
+        elif k == 2:
+            seq = [Attrs(r) for r in rows]
+        elif k == 3:
+            seq = [('k%d' % i, Attrs(r)) for i, r in enumerate(rows)]
+        elif k == 4:
+            seq = [('k%d' % i, r) for i, r in enumerate(rows)]
+        else:
+            seq = tuple(Attrs(r) for r in rows)
+        got = []
+        (T_ROWS_MAP if mapping else T_ROWS_ATTR)(seq=seq, rec=lambda *r: got.append(r))
+        if len(got) != 1:
+            return False
+        r = got[0]
+        return same10(r[0:10], exact10(live_a)) and same10(r[10:20], exact10(b))
+
+
+OBLIGATIONS.append(Ob('row_kinds', ob_row_kinds, ['0 <= kind < 6', '0 <= v < 3', '0 <= miss < 4'], timeout=tier(200, 600), path_timeout=60,
+                      data='-', selectors='rows as dict / __getitem__-only mapping / object / (key, object) / (key, dict) / tuple of objects; column missing or None in 0-2 rows; values from %r' % (VALS3,),
+                      stubs='render runs untraced once the selectors are fixed on the path'))
